@@ -37,7 +37,7 @@ def split_project(rng, roots):
                         body = body[:-1]          # included file without a final newline
                     if rng.random() < 0.3:
                         # blank / comment lines before the first directive of the included file, trailing blank lines
-                        body = rng.choice([b"\n", b"\n\n", b"   \n", b"\r\n"]) + bytes(body) + rng.choice([b"", b"\n\n", b"\n  \n"])
+                        body = rng.choice([b"\n", b"\n\n", b"   \n", b"\t\n"]) + bytes(body) + rng.choice([b"", b"\n\n", b"\n  \n"])
                     files[os.path.normpath(os.path.join(prefix, name))] = bytes(body)
                     cache[key] = name
                 rel = name
